@@ -353,8 +353,14 @@ class Enc:
             b = self.ev(args[2], env, "(and %s (not %s))" % (pc, c), depth, local_fns)
             return self.ite(c, a, b)
         if name in ("trunc", "floor") and len(args) == 1 and args[0][0] == "bin" and args[0][1] == "/":
-            a = self.ev(args[0][2], env, pc, depth, local_fns)
-            b = self.ev(args[0][3], env, pc, depth, local_fns)
+            num, den = args[0][2], args[0][3]
+            b = self.ev(den, env, pc, depth, local_fns)
+            # (a / b) / c under trunc/floor: real division composes, trunc((a/b)/c) = trunc(a / (b*c))
+            while num[0] == "bin" and num[1] == "/":
+                b2 = self.ev(num[3], env, pc, depth, local_fns)
+                b = self.binop("*", b2, b, pc)
+                num = num[2]
+            a = self.ev(num, env, pc, depth, local_fns)
             return self.divmod(a, b, name, pc)[0]
         if name in ("div_floor",) and len(args) == 2:
             a = self.ev(args[0], env, pc, depth, local_fns)
